@@ -1825,3 +1825,24 @@ Proof.
            | (if ?b then _ else _) = _ => destruct b
            end; inversion E; reflexivity.
 Qed.
+
+(* ------------------------------------------------------------------ *)
+(* packaged statements for Props.v                                      *)
+
+Lemma p_reachable e : wf_env e -> forall os, wf_hist e empty os -> Inv e (run e empty os).
+Proof. intros We os H. apply run_inv; [exact We | apply Inv_empty | exact H]. Qed.
+
+Lemma p_complete e : wf_env e -> forall os, wf_hist e empty os -> no_delist os ->
+  NameComplete e (run e empty os).
+Proof.
+  intros We os H Hn. apply run_complete; [exact We | apply Inv_empty | apply NameComplete_empty | exact H | exact Hn].
+Qed.
+
+Lemma p_rejected e s o x : step e s o = inr x ->
+  apply e s o = s /\ forall os, trace e s (o :: os) = (Some x, s) :: trace e s os.
+Proof. intro H. split; [apply (rejected_noop _ _ _ _ H) | intro os; apply trace_rejected; exact H]. Qed.
+
+(* referential integrity proper: every reference held by an object resolves *)
+Definition RefInt (e : env) (s : schema) : Prop :=
+  forall r c ci d f t, gty s r = Some c -> cinfo_of e c = Some ci -> gdata s r = Some d ->
+                       In f (c_refs ci) -> In t (frefs d f) -> gty s t <> None.
